@@ -229,7 +229,6 @@ class Program:
                     sp_, di_ = normalize.canonical_forms(tree)
                     prog.tuple_assigns_split += sp_
                     prog.negations_distributed += di_
-                    prog.common_tails_sunk += getattr(normalize.canonical_forms, 'last_sunk', 0)
                     prog.display_loops_unrolled += normalize.unroll_new_display_loops(tree, rel)
                     prog.locals_recovered += localnames.recover(tree, rel)
                     prog.helpers_inlined += normalize.inline_new_helpers(tree, rel)
@@ -238,6 +237,7 @@ class Program:
                     prog.fill_loops_folded += normalize.fold_new_fill_loops(tree, rel)
                     prog.adjacent_temps_inlined += normalize.inline_adjacent_temps(tree, rel)
                     prog.spellings_restored += normalize.restore_spellings(tree, rel)
+                    prog.common_tails_sunk += normalize.sink_common_tails(tree)
                     prog.else_flattened += normalize.flatten_else(tree)
                 except (SyntaxError, UnicodeDecodeError, OSError) as exc:
                     prog.parse_failures.append(f"{rel}: {exc}")
